@@ -1,5 +1,11 @@
-// mp.scope: drive the real MsgPack read scopes (root/object/array) with a request history, then Finalize().
+// mp.scope: drive the real MsgPack read scopes (root/object/array/binary) with a request history, then Finalize().
 // The document is given as TOKENS and encoded here by an independent mini-encoder.
+//   tokens: n t f i<dec> d<hex16> s<hex> b<hex> a<n> m<n>
+//           x<type dec>:<hex payload>   ext value (most compact of fixext1/2/4/8/16, ext8/16/32; type -1 is written as T)
+//           T<sec>:<ns>                 timestamp = ext type -1: timestamp32 (ns = 0, sec < 2^32), timestamp64 (sec < 2^34),
+//                                       else timestamp96 as the SPECIFICATION lays it out (ns:uint32, sec:int64)
+//   requests: … n=x / g<key>=x (target CBinTimestamp), keys may be T<sec>:<ns>;
+//           B (array/root) / B<key> (object): OpenBinaryScope; inside it r = SerializeValue(byte), e = IsEnd, c = close
 #include "harness.h"
 #include <sstream>
 #include <cstring>
@@ -10,6 +16,7 @@
 using namespace vh;
 using namespace BitSerializer;
 namespace MP = BitSerializer::MsgPack::Detail;
+using BitSerializer::Detail::CBinTimestamp;
 
 std::string describeException(const std::exception& e);
 
@@ -54,6 +61,37 @@ void encodeTok(std::string& o, const std::string& t) {
 		if (s.size() < 256) { o.push_back('\xc4'); be(o, s.size(), 1); } else { o.push_back('\xc5'); be(o, s.size(), 2); }
 		o += s; return;
 	}
+	case 'x': {
+		const auto colon = body.find(':');
+		if (colon == std::string::npos) throw BadOp("ext tok");
+		const long ty = std::stol(body.substr(0, colon));
+		if (ty < -128 || ty > 127 || ty == -1) throw BadOp("ext type");       // type -1 (timestamp) is the token T
+		const std::string p = parseBytes(body.substr(colon + 1));
+		switch (p.size()) {
+		case 1: o.push_back('\xd4'); break;
+		case 2: o.push_back('\xd5'); break;
+		case 4: o.push_back('\xd6'); break;
+		case 8: o.push_back('\xd7'); break;
+		case 16: o.push_back('\xd8'); break;
+		default:
+			if (p.size() < 256) { o.push_back('\xc7'); be(o, p.size(), 1); }
+			else if (p.size() < 65536) { o.push_back('\xc8'); be(o, p.size(), 2); }
+			else { o.push_back('\xc9'); be(o, p.size(), 4); }
+		}
+		o.push_back(static_cast<char>(static_cast<signed char>(ty)));
+		o += p; return;
+	}
+	case 'T': {
+		const auto colon = body.find(':');
+		if (colon == std::string::npos) throw BadOp("ts tok");
+		const long long sec = std::stoll(body.substr(0, colon));
+		const unsigned long long ns = std::stoull(body.substr(colon + 1));
+		if (ns > 0xFFFFFFFFULL) throw BadOp("ts ns");
+		if (sec >= 0 && sec < (1LL << 32) && ns == 0) { o.push_back('\xd6'); o.push_back('\xff'); be(o, static_cast<uint64_t>(sec), 4); }
+		else if (sec >= 0 && sec < (1LL << 34) && ns < (1ULL << 30)) { o.push_back('\xd7'); o.push_back('\xff'); be(o, (ns << 34) | static_cast<uint64_t>(sec), 8); }
+		else { o.push_back('\xc7'); o.push_back('\x0c'); o.push_back('\xff'); be(o, ns, 4); be(o, static_cast<uint64_t>(sec), 8); }
+		return;
+	}
 	case 'a': { const auto n = std::stoul(body); if (n < 16) o.push_back(static_cast<char>(0x90 | n)); else { o.push_back('\xdc'); be(o, n, 2); } return; }
 	case 'm': { const auto n = std::stoul(body); if (n < 16) o.push_back(static_cast<char>(0x80 | n)); else { o.push_back('\xde'); be(o, n, 2); } return; }
 	}
@@ -76,6 +114,7 @@ struct Run {
 		else if (ty == "s") { std::string_view x; ok = scope.SerializeValue(key..., x); v = "s" + hexStr(x); }
 		else if (ty == "d") { double x = 0; ok = scope.SerializeValue(key..., x); uint64_t bits; std::memcpy(&bits, &x, 8); char buf[20]; std::snprintf(buf, sizeof buf, "d%016llx", static_cast<unsigned long long>(bits)); v = buf; }
 		else if (ty == "n") { std::nullptr_t x = nullptr; ok = scope.SerializeValue(key..., x); v = "n"; }
+		else if (ty == "x") { CBinTimestamp x(0x5A5A, 0x5A); ok = scope.SerializeValue(key..., x); v = std::to_string(x.Seconds) + ":" + std::to_string(x.Nanoseconds); }
 		else throw BadOp("ty");
 		out.push_back(ok ? "T" + v : "F");
 	}
@@ -86,9 +125,47 @@ struct Run {
 		else fn(scope, std::string(), std::stoll(key.substr(1)), false);
 	}
 
+	static CBinTimestamp tsKey(const std::string& key) {
+		const auto colon = key.find(':');
+		if (colon == std::string::npos) throw BadOp("ts key");
+		return CBinTimestamp(std::stoll(key.substr(1, colon - 1)), static_cast<int32_t>(std::stol(key.substr(colon + 1))));
+	}
+
+	// call fn(key) with the key converted to the C++ type the request names: s<hex> string, i int64, j int32, u uint64, T timestamp
+	template <class TFn>
+	static void withKey(const std::string& key, TFn&& fn) {
+		if (key.empty()) throw BadOp("key");
+		if (key[0] == 's') fn(parseBytes(key.substr(1)));
+		else if (key[0] == 'j') fn(static_cast<int32_t>(std::stol(key.substr(1))));
+		else if (key[0] == 'u') fn(static_cast<uint64_t>(std::stoull(key.substr(1))));
+		else if (key[0] == 'T') fn(tsKey(key));
+		else if (key[0] == 'i') fn(static_cast<int64_t>(std::stoll(key.substr(1))));
+		else throw BadOp("key");
+	}
+
 	template <class TObj> void objectLoop(TObj& scope);
 	template <class TArr> void arrayLoop(TArr& scope);
+	template <class TBin> void binaryLoop(TBin& scope);
 };
+
+// requests inside a binary scope: r = SerializeValue(one byte; unsigned char and char targets alternate), e = IsEnd, c = close
+template <class TBin>
+void Run::binaryLoop(TBin& scope) {
+	static const char* d = "0123456789abcdef";
+	while (i < reqs.size()) {
+		const std::string r = reqs[i++];
+		if (r == "c") return;
+		if (r == "e") { out.push_back(scope.IsEnd() ? "Y" : "N"); }
+		else if (r == "r") {
+			unsigned char b = 0x5A;
+			bool ok;
+			if (i % 2) { ok = scope.SerializeValue(b); } else { char c = 0x5A; ok = scope.SerializeValue(c); b = static_cast<unsigned char>(c); }
+			out.push_back(ok ? std::string("T") + d[b >> 4] + d[b & 15] : "F");
+		}
+		else throw BadOp("req in binary");
+	}
+	throw BadOp("unclosed");
+}
 
 template <class TArr>
 void Run::arrayLoop(TArr& scope) {
@@ -104,6 +181,11 @@ void Run::arrayLoop(TArr& scope) {
 		else if (r == "o") {
 			auto child = scope.OpenObjectScope(0);
 			if (child) { out.push_back("P" + std::to_string(child->GetEstimatedSize())); objectLoop(*child); child.reset(); out.push_back("C"); }
+			else out.push_back("F");
+		}
+		else if (r == "B") {
+			auto child = scope.OpenBinaryScope(0);
+			if (child) { out.push_back("P" + std::to_string(child->GetEstimatedSize())); binaryLoop(*child); child.reset(); out.push_back("C"); }
 			else out.push_back("F");
 		}
 		else if (r.rfind("n=", 0) == 0) scalar(scope, r.substr(2));
@@ -124,6 +206,7 @@ void Run::objectLoop(TObj& scope) {
 				if (!ks.empty()) ks.push_back(',');
 				if constexpr (std::is_same_v<T, std::string_view>) ks += "s" + hexStr(key);
 				else if constexpr (std::is_integral_v<T>) ks += "i" + std::to_string(key);
+				else if constexpr (std::is_same_v<T, CBinTimestamp>) ks += "T" + std::to_string(key.Seconds) + ":" + std::to_string(key.Nanoseconds);
 				else ks += "?";
 			});
 			out.push_back("K" + ks);
@@ -132,28 +215,29 @@ void Run::objectLoop(TObj& scope) {
 			const auto eq = r.find('=');
 			const std::string key = r.substr(1, eq - 1), ty = r.substr(eq + 1);
 			if (key[0] == 's') scalar(scope, ty, parseBytes(key.substr(1)));
+			else if (key[0] == 'T') { const CBinTimestamp k = tsKey(key); scalar(scope, ty, k); }
 			else if (key[0] == 'j') { const int32_t k = static_cast<int32_t>(std::stol(key.substr(1))); scalar(scope, ty, k); }
 			else if (key[0] == 'u') { const uint64_t k = std::stoull(key.substr(1)); scalar(scope, ty, k); }
 			else { const int64_t k = std::stoll(key.substr(1)); scalar(scope, ty, k); }
 		}
-		else if (r[0] == 'A' || r[0] == 'O') {
+		else if (r[0] == 'A' || r[0] == 'O' || r[0] == 'B') {
 			const std::string key = r.substr(1);
-			const bool arr = r[0] == 'A';
-			auto open = [&](const auto& k) {
-				if (arr) {
+			const char kind = r[0];
+			withKey(key, [&](const auto& k) {
+				if (kind == 'A') {
 					auto child = scope.OpenArrayScope(k, 0);
 					if (child) { out.push_back("P" + std::to_string(child->GetEstimatedSize())); arrayLoop(*child); child.reset(); out.push_back("C"); }
 					else out.push_back("F");
-				} else {
+				} else if (kind == 'O') {
 					auto child = scope.OpenObjectScope(k, 0);
 					if (child) { out.push_back("P" + std::to_string(child->GetEstimatedSize())); objectLoop(*child); child.reset(); out.push_back("C"); }
 					else out.push_back("F");
+				} else {
+					auto child = scope.OpenBinaryScope(k, 0);
+					if (child) { out.push_back("P" + std::to_string(child->GetEstimatedSize())); binaryLoop(*child); child.reset(); out.push_back("C"); }
+					else out.push_back("F");
 				}
-			};
-			if (key[0] == 's') open(parseBytes(key.substr(1)));
-			else if (key[0] == 'j') open(static_cast<int32_t>(std::stol(key.substr(1))));
-			else if (key[0] == 'u') open(static_cast<uint64_t>(std::stoull(key.substr(1))));
-			else open(static_cast<int64_t>(std::stoll(key.substr(1))));
+			});
 		}
 		else throw BadOp("req in object");
 	}
@@ -192,6 +276,11 @@ Register s1("mp.scope", [](const Tokens& t) -> std::string {
 			else if (r == "o") {
 				auto child = root->OpenObjectScope(0);
 				if (child) { run.out.push_back("P" + std::to_string(child->GetEstimatedSize())); run.objectLoop(*child); child.reset(); run.out.push_back("C"); }
+				else run.out.push_back("F");
+			}
+			else if (r == "B") {
+				auto child = root->OpenBinaryScope(0);
+				if (child) { run.out.push_back("P" + std::to_string(child->GetEstimatedSize())); run.binaryLoop(*child); child.reset(); run.out.push_back("C"); }
 				else run.out.push_back("F");
 			}
 			else if (r.rfind("n=", 0) == 0) run.scalar(*root, r.substr(2));
